@@ -12,6 +12,8 @@ import (
 	bpmn "github.com/olive-io/bpmn/v2"
 	"github.com/olive-io/bpmn/v2/pkg/clock"
 	"github.com/olive-io/bpmn/v2/pkg/event"
+	"github.com/olive-io/bpmn/v2/pkg/tracing"
+	"github.com/olive-io/bpmn/schema"
 
 	"verif/internal/drive"
 	"verif/internal/fw"
@@ -31,6 +33,10 @@ type c07Case struct {
 	Site    string `json:"site,omitempty"`
 	Nth     int    `json:"nth,omitempty"`
 	PauseUs int    `json:"pause_us,omitempty"`
+	// process-set cases (Prog == "set"): C18's definitions
+	SetExecs []string `json:"set_execs,omitempty"`
+	SetLink  string   `json:"set_link,omitempty"`
+	SetHold  bool     `json:"set_hold,omitempty"` // the last task of every process is never answered
 }
 
 // c07Prog: graph + which tasks the driver answers + events/clock reactions
@@ -273,6 +279,11 @@ func c07Cases(tier string, seed uint64) []fw.Case {
 			}
 		}
 	}
+	stride2 := 7
+	if tier == "thorough" {
+		stride2 = 2
+	}
+	off2 := rng.Intn(stride2)
 	// cancellation at code points (between the engine's critical sections)
 	nths := []int{1, 2, 4}
 	if tier == "thorough" {
@@ -291,10 +302,167 @@ func c07Cases(tier string, seed uint64) []fw.Case {
 			}
 		}
 	}
+	// process sets: cancellation by trace count and at code points
+	for _, link := range []string{"none", "both", "start2", "catch2", "waitcatch"} {
+		for ei, execs := range [][]string{{"task"}, {"fork", "task"}, {"task", "trivial", "fork"}} {
+			for _, hold := range []bool{false, true} {
+				base := c07Case{Prog: "set", SetExecs: execs, SetLink: link, SetHold: hold}
+				for k := 0; k <= 90; k++ {
+					if k > 3 && (k+off2+ei)%stride2 != 0 {
+						continue
+					}
+					for _, hooks := range []float64{0, 0.5} {
+						c := base
+						c.K, c.Hooks = k, hooks
+						c.Name = fmt.Sprintf("set/%v/%s/hold%v/k%d/h%v", execs, link, hold, k, hooks)
+						cs = append(cs, fw.MkCase("cancel-set", &c))
+					}
+				}
+				for _, site := range perturb.Sites {
+					if tier != "thorough" && !(strings.HasPrefix(site, "pset.") || strings.HasPrefix(site, "process.") || strings.HasPrefix(site, "relay.") || strings.HasPrefix(site, "tracer.") || strings.HasPrefix(site, "catch.")) {
+						continue
+					}
+					for _, nth := range nths {
+						c := base
+						c.K, c.Site, c.Nth, c.PauseUs = -1, site, nth, 300
+						c.Name = fmt.Sprintf("set/%v/%s/hold%v/%s#%d", execs, link, hold, site, nth)
+						cs = append(cs, fw.MkCase("cancel-set-at-site", &c))
+					}
+				}
+			}
+		}
+	}
 	return fw.Number(cs)
 }
 
+// c07RunSet: a process set (C18's shapes and message-flow links) is started, every task is answered as it is
+// requested (or the tasks *_t1 / *_t are held back), the context is cancelled on receipt of the k-th trace of
+// the set's tracer or by the goroutine making the n-th hit of an instrumentation site. By the quiescent point
+// after cancel(): no engine goroutine of the case is left, the set's tracer is done and its subscriber
+// channel closed, set waiters and StartAll have returned.
+func c07RunSet(c *c07Case, env *fw.Env, v *fw.V) {
+	b := c18Definitions(&c18Case{Execs: c.SetExecs, Link: c.SetLink})
+	defs, err := schema.Parse([]byte(gen.XML(b.graphs, b.exec, b.extra)))
+	if err != nil {
+		v.Inconclusive("parse", "%v", err)
+		return
+	}
+	if c.Hooks > 0 {
+		perturb.Configure(c.Hooks, 200)
+	} else {
+		perturb.Off()
+	}
+	ctx, cancel := context.WithCancel(context.Background())
+	defer cancel()
+	var cancelled atomic.Bool
+	var count atomic.Int64
+	doCancel := func() {
+		if cancelled.CompareAndSwap(false, true) {
+			cancel()
+		}
+	}
+	fired := func() bool { return false }
+	if c.Site != "" {
+		fired = perturb.Trigger(c.Site, c.Nth, time.Duration(c.PauseUs)*time.Microsecond, doCancel)
+		defer perturb.Trigger("", 0, 0, nil)
+	}
+	engine := bpmn.NewEngine(bpmn.WithEngineContext(ctx))
+	ps, err := engine.NewProcessSet(defs, bpmn.WithContext(ctx))
+	if err != nil {
+		if cancelled.Load() {
+			return // cancelled while the set was being built: nothing was started
+		}
+		v.Violate("new-process-set-error", "error", "%v", err)
+		return
+	}
+	ch := ps.Tracer().SubscribeChannel(make(chan tracing.ITrace, 8192))
+	var closed atomic.Bool
+	go func() {
+		for tr := range ch {
+			n := count.Add(1)
+			if int(n) == c.K {
+				doCancel()
+			}
+			e := drive.Classify(tr)
+			if tt, ok := e.Raw.(bpmn.TaskTrace); ok {
+				if c.SetHold && (strings.HasSuffix(e.Node, "_t1") || strings.HasSuffix(e.Node, "_t")) {
+					continue
+				}
+				tt.Do(bpmn.DoWithResults(nil))
+			}
+		}
+		closed.Store(true)
+	}()
+	type waiter struct{ done atomic.Bool }
+	w1, w2 := &waiter{}, &waiter{}
+	go func() { ps.WaitUntilComplete(ctx); w1.done.Store(true) }()
+	go func() { ps.WaitUntilComplete(context.Background()); w2.done.Store(true) }()
+	if c.K == 0 {
+		doCancel()
+	}
+	var started atomic.Bool
+	go func() { ps.StartAll(ctx); started.Store(true) }()
+	quiet := func() (quiesce.Result, bool) {
+		q := quiesce.Wait(env.Label, 5*time.Second, func() bool { return len(ch) == 0 })
+		return q, q.Quiescent
+	}
+	q, ok := quiet()
+	if !cancelled.Load() {
+		if !ok {
+			v.Inconclusive("watchdog", "no quiescent point before cancellation: %v", quiesce.Summary(q.Gs))
+			return
+		}
+		doCancel()
+		v.Add("cancel-at-rest", 1)
+	} else {
+		v.Add("cancel-mid-run", 1)
+	}
+	if fired() {
+		v.Add("cancel-at-site", 1)
+		v.AddSig(fmt.Sprintf("site:%s#%d", c.Site, c.Nth))
+	}
+	v.AddSig(fmt.Sprintf("set-%s@%d", c.SetLink, count.Load()))
+	q, ok = quiet()
+	if !ok {
+		v.Inconclusive("watchdog", "no quiescent point after cancellation: %v", quiesce.Summary(q.Gs))
+		return
+	}
+	v.Add("qpoints", 1)
+	cls := "set-link=" + c.SetLink
+	leaks := map[string]int{}
+	for _, g := range quiesce.Engine(q.Gs) {
+		if g.Blocked() {
+			leaks[shortFn(g.TopRepoFrame())+"["+g.State+"]"]++
+		}
+	}
+	for site, n := range leaks {
+		v.Violate("goroutine-leak", site, "%d engine goroutine(s) still blocked at %s after cancellation (process set %v link %s hold %v, cancelled after %d traces)", n, site, c.SetExecs, c.SetLink, c.SetHold, count.Load())
+	}
+	select {
+	case <-ps.Tracer().Done():
+	default:
+		v.Violate("tracer-not-done", cls, "the set's Tracer().Done() is not closed at the quiescent point after cancellation")
+	}
+	if !closed.Load() {
+		v.Violate("subscriber-not-closed", cls, "the subscriber channel of the set's tracer is not closed at the quiescent point after cancellation")
+	}
+	if !w1.done.Load() {
+		v.Violate("waiter-blocked", "set-same-context", "ProcessSet.WaitUntilComplete(cancelled context) still blocked after cancellation")
+	}
+	if !w2.done.Load() {
+		v.Violate("waiter-blocked", "set-other-context", "ProcessSet.WaitUntilComplete(background context) still blocked after the set's context was cancelled")
+	}
+	if !started.Load() {
+		v.Violate("caller-blocked", "ProcessSet).StartAll", "ProcessSet.StartAll still blocked after cancellation")
+	}
+	v.Add("traces", int(count.Load()))
+}
+
 func c07Run(c *c07Case, env *fw.Env, v *fw.V) {
+	if c.Prog == "set" {
+		c07RunSet(c, env, v)
+		return
+	}
 	p := c07Progs()[c.Prog]
 	defs, _, err := step.Parse(p.G)
 	if err != nil {
@@ -507,7 +675,7 @@ func init() {
 			v.Nontrivial = true
 			return v
 		},
-		Rule:        "corpus of programs covering every node kind (pending task, half-full parallel / inclusive join, exclusive gateway in a loop, listening and fired catch event, armed event-based gateway, armed mock-clock timer, running / completed / nested sub-process, armed boundary listener, two start events, error answers whose handler decision is pending / retries / plain) x cancellation point k = number of traces received before cancel() (0..70 strided in quick, all in thorough; beyond the run's length = at the resting state) x hooks off / 0.5; one process per case; after cancel: goroutine census by label at the quiescent point (leaks, blocked waiters), spin detection, tracer/subscriber closure, context of late task requests; distinct = descriptor hash, all non-trivial (an instance is cancelled in every case)",
+		Rule:        "corpus of programs covering every node kind (pending task, half-full parallel / inclusive join, exclusive gateway in a loop, listening and fired catch event, armed event-based gateway, armed mock-clock timer, running / completed / nested sub-process, armed boundary listener, two start events, error answers whose handler decision is pending / retries / plain) x cancellation point k = number of traces received before cancel() (0..70 strided in quick, all in thorough; beyond the run's length = at the resting state) x hooks off / 0.5; the same cancellation points indexed by code position (the goroutine making the n-th hit of each of the instrumentation sites cancels, then pauses 0 / 300 us); process sets (1..3 processes x message-flow links none / start+catch / two starts / two catches / uninstantiated catch x all answered or last tasks held) cancelled by trace count and at code points; one process per case; after cancel: goroutine census by label at the quiescent point (leaks, blocked waiters), spin detection, tracer/subscriber closure, context of late task requests; distinct = descriptor hash, all non-trivial (an instance is cancelled in every case)",
 		WatchdogSec: 60,
 		Assumptions: []string{"'promptly' is restated as 'by the quiescent point after cancel() returned'", "the context given to WithContext and StartAll is the same one"},
 	})
